@@ -42,11 +42,12 @@ FIXED = [
                                         {'op': 'parseStyle', 'text': 'color:red', 'flags': '1', 'raising': None, 'inp': 'bad'},
                                         {'op': 'battery'}]),
     ('parser-reused-after-mode-change', [{'op': 'setMode', 'v': 1},
+                                         {'op': 'newParser', 'raising': True, 'pvalidate': True, 'fetcher': 'none'},
                                          {'op': 'parseString', 'text': 'a{color:red}', 'flags': '1', 'raising': True,
-                                          'inp': 'str', 'fetcher': 'none'},
+                                          'pobj': 0, 'inp': 'str', 'fetcher': 'none'},
                                          {'op': 'setMode', 'v': 0},
                                          {'op': 'parseString', 'text': 'a{color:red}', 'flags': '1', 'raising': True,
-                                          'inp': 'str', 'fetcher': 'none'}, {'op': 'battery'}]),
+                                          'pobj': 0, 'inp': 'str', 'fetcher': 'none'}, {'op': 'battery'}]),
     ('raising-parser-raises', [{'op': 'setMode', 'v': 0},
                                {'op': 'parseString', 'text': 'a{color}', 'flags': '000', 'raising': True, 'inp': 'str',
                                 'fetcher': 'none'}, {'op': 'battery'}]),
@@ -70,8 +71,13 @@ FIXED = [
     ('list-member-query-reused', [{'op': 'setMode', 'v': 0},
                                   {'op': 'ctor', 'expr': "setattr(cssutils.stylesheets.MediaList('screen, print')[0], 'mediaText', T)",
                                    'text': 'screen foo'}, {'op': 'battery'}]),
-    ('empty-rules-serialised', [{'op': 'setMode', 'v': 0}, {'op': 'serialize', 'rule': 'e{}'},
+    ('empty-rules-serialised', [{'op': 'setMode', 'v': 0},
                                 {'op': 'sertext', 'text': 'e{} f{/*c*/} @media print{g{}} h{i:j}'}, {'op': 'battery'}]),
+    ('indent-specificities', [{'op': 'setMode', 'v': 0}, {'op': 'setIndent', 'v': 1},
+                              {'op': 'serialize', 'rules': ['a.x{x:1}']}, {'op': 'serialize', 'rules': ['a.x.y{x:1}']},
+                              {'op': 'sertext', 'text': 'a.x{y:1}'}, {'op': 'sertext', 'text': 'a.x.y{q:1}'},
+                              {'op': 'setIndent', 'v': 0}, {'op': 'serialize', 'rules': ['a.x.y{x:1}', 'a{x:1}']},
+                              {'op': 'battery'}]),
     ('value-with-semicolon', [{'op': 'setMode', 'v': 0},
                               {'op': 'ctor', 'expr': 'cssutils.css.PropertyValue(T)', 'text': 'red; blue'},
                               {'op': 'ctor', 'expr': 'cssutils.css.CSSVariablesDeclaration(T)', 'text': 'a: 1; b: 2'},
@@ -85,6 +91,26 @@ FIXED = [
                             {'op': 'ctor', 'expr': 'cssutils.stylesheets.MediaList(T)', 'text': 'screen and, print'},
                             {'op': 'battery'}]),
 ]
+
+
+def _reuse_histories():
+    """one parser object, earlier calls with a per-call argument, later calls without: for every entry point that takes
+    the argument first and every entry point afterwards"""
+    out = []
+    from harness.c12_ops import PCALL_ENTRIES, PCALL_ARGS
+    for pv in (True, False):
+        for first in PCALL_ENTRIES:
+            for name in PCALL_ENTRIES[first]:
+                ops = [{'op': 'setMode', 'v': 0}, {'op': 'newParser', 'raising': None, 'pvalidate': pv, 'fetcher': 'ok'}]
+                for value in PCALL_ARGS[name]:
+                    ops.append({'op': 'pcall', 'pobj': 0, 'entry': first, 'args': {name: value}})
+                    for later in PCALL_ENTRIES:
+                        ops.append({'op': 'pcall', 'pobj': 0, 'entry': later, 'args': {}})
+                out.append(('reuse-%s-%s-%s' % ('v' if pv else 'nv', first, name), ops))
+    return out
+
+
+FIXED = FIXED + _reuse_histories()
 
 
 def run_worker(req, timeout=1500):
@@ -171,20 +197,10 @@ class C12(Check):
             pass
         self.pool = concurrent.futures.ThreadPoolExecutor(max_workers=min(12, (os.cpu_count() or 4)))
         try:
-            failed = []
-            # the oracle phases come first in the report but every phase runs: a phase that cannot run (worker died on
-            # an exception of the implementation, say) is a broken correspondence, not the end of the search
+            # every phase runs even if an earlier one could not (ctx.phase records that as a broken obligation)
             for phase in (self.corpus, self.corr_engine, self.calibrate, self.corr_history, self.oracle_fixed,
                           self.oracle_history):
-                try:
-                    phase(ctx)
-                except TimeLimit:
-                    raise
-                except Exception as e:      # noqa: B902
-                    failed.append(phase.__name__)
-                    ctx.disagree('phase %s could not run' % phase.__name__, {'phase': phase.__name__}, repr(e)[-600:], 'runs')
-            if failed:
-                ctx.notes['phases_failed'] = failed
+                ctx.phase(phase, ctx)
         finally:
             self.pool.shutdown(wait=False)
 
@@ -325,8 +341,10 @@ class C12(Check):
         obs = ['s%d' % int(x) for x in r['seen']]
         if out == 'none':
             obs.append('n')
+        if 'validating' in r:
+            obs.append('v%d' % int(r['validating']))
         if op['op'] == 'serialize' and 'levels' in r:
-            obs.append('l%d' % r['levels'][0])
+            obs.append('l' + '+'.join(str(x) for x in r['levels']))
         names = base + ['c12-p1', 'c12-p2']
         prefs = list(st['prefs'])
         while prefs and prefs[-1] == 0:
@@ -334,8 +352,8 @@ class C12(Check):
         prof = [names.index(x) if x in names else 999 for x in st['profiles']]
         return ' '.join([res, ','.join(obs) or '-', str(int(st['raising'])), str(int(not st['saved'])),
                          str(int(st['ser'] == prev_state['ser'])) if prev_state else '1',
-                         '+'.join(map(str, prefs)) or '-', str(int(st['indent'])), str(st['sel_level']), str(st['n_sel']),
-                         '+'.join(map(str, prof)) or '-'])
+                         '+'.join(map(str, prefs)) or '-', str(int(st['indent'])),
+                         '+'.join(map(str, prof)) or '-', ','.join(st['parsers']) or '-'])
 
     def compare_history(self, ctx, ops, res, model_line, base):
         faults = set()
@@ -350,7 +368,15 @@ class C12(Check):
                 want = mobs[i] if i < len(mobs) else '(missing)'
                 # the model strips nothing: normalise its preference vector the same way
                 w = want.split(' ')
-                if len(w) == 10:
+                if len(w) == 9:
+                    # `validating` of results that only a callback or csscombine itself sees is not observed here:
+                    # keep the one the caller of this entry point gets (the last), drop the others
+                    o = w[1].split(',') if w[1] != '-' else []
+                    vs = [j for j, x in enumerate(o) if x in ('v0', 'v1')]
+                    keep = vs[-1] if (vs and op['op'] in ('parseString', 'parseStyle', 'parseFile', 'parseUrl')
+                                      and w[0] == 'ok' and 'n' not in o) else None
+                    o = [x for j, x in enumerate(o) if x not in ('v0', 'v1') or j == keep]
+                    w[1] = ','.join(o) or '-'
                     p = w[5].split('+') if w[5] != '-' else []
                     while p and p[-1] == '0':
                         p.pop()
@@ -359,9 +385,6 @@ class C12(Check):
                 if want != got:
                     ctx.disagree('history step %d (%s)' % (i, op['op']), {'ops': ops[:i + 1]}, got, want)
                     break
-            if op['op'] == 'serialize' and r.get('indented_ok') is False:
-                ctx.violate('the indentation of a serialised rule is the serializer level the model tracks',
-                            {'ops': ops[:i + 1]}, r)
         ctx.case(key=json.dumps(ops, sort_keys=True), nontrivial=len(faults) >= 2, kind='history:%d-faults' % min(len(faults), 3),
                  sample={'history_ops': [O.model_step(op) for op in ops[:8]], 'faults': sorted(faults)})
         for op in ops:
@@ -430,7 +453,6 @@ class C12(Check):
         faults = set()
         for i, (op, r) in enumerate(zip(ops, res)):
             st = r['state']
-            region = indent_region(ops[:i + 1])
             if 'battery' not in r and r['out'].startswith('raised:'):
                 faults.add(r['out'])
             if prev is not None and not O.is_explicit(op):
@@ -440,16 +462,25 @@ class C12(Check):
                                       ('indent', 'T12.1 the serializer preferences are as they were before the call'),
                                       ('profiles', 'T12.1 the profile registry is as it was before the call'),
                                       ('default_profiles', 'T12.1 the default profiles are as they were before the call'),
-                                      ('level', 'the serializer nesting level is back to its value')):
+                                      ('level', 'the serializer nesting level is back to its value'),
+                                      ('parser_objects', 'T12.1 no attribute of any CSSParser object is changed by a call')):
                     if st[field] != prev[field]:
                         found.append((clause, i, {'field': field, 'before': prev[field], 'after': st[field]}, None))
+                if op['op'] == 'pcall' and r.get('reused') != r.get('twin'):
+                    a, b = r.get('reused') or {}, r.get('twin') or {}
+                    diff = {k: {'reused_parser': a.get(k), 'fresh_parser': b.get(k)} for k in sorted(set(a) | set(b))
+                            if a.get(k) != b.get(k)}
+                    found.append(('a parser object can be reused any number of times with identical results: a call on a '
+                                  'parser that has served other calls (with other per-call arguments) returns what the '
+                                  'same call returns on a parser just created', i,
+                                  {'call': '%s(%s)' % (op['entry'], ', '.join('%s=%r' % kv for kv in sorted(op['args'].items()))),
+                                   'differs': diff}, None))
                 if st['saved']:
                     found.append(('T12.2 savedTokens is empty after every completed call', i, {'saved': st['saved']}, None))
                 for field in ('sel_level', 'n_sel'):
                     if st[field] != prev[field]:
                         found.append(('the serializer carries nothing from one call to the next', i,
-                                      {'field': field, 'before': prev[field], 'after': st[field]},
-                                      KNOWN_INDENT if region else None))
+                                      {'field': field, 'before': prev[field], 'after': st[field]}, None))
                 sd = r.get('snapdiff') or []
                 memo = [k for k in sd if "cssutils.ser.['_selector" in k]
                 other = [k for k in sd if k not in memo and not k.startswith("cssutils.ser.['prefs']")
@@ -457,7 +488,7 @@ class C12(Check):
                 if other:
                     found.append(('no module-level or class-level state of the package is changed by a call', i,
                                   {'changed': other[:8]}, None))
-                if memo and not region:
+                if memo:
                     found.append(('the serializer carries nothing from one call to the next', i, {'changed': memo[:4]}, None))
             prev = st
         # batteries against the explicit settings alone
@@ -467,8 +498,7 @@ class C12(Check):
             for (i, b), rb in zip(mine, ref):
                 if b != rb:
                     diffs = [(x, y) for x, y in zip(b, rb) if x != y]
-                    layout_only = all(squash(x) == squash(y) for x, y in diffs) and len(b) == len(rb)
-                    known = KNOWN_INDENT if (layout_only and indent_region(ops[:i])) else None
+                    known = None
                     found.append(('T12.3 the probe battery after this history equals the battery after the explicit '
                                   'settings alone (fresh process)', i,
                                   {'first_difference': {'after_history': diffs[0][0][:300], 'fresh': diffs[0][1][:300]}
@@ -529,7 +559,7 @@ class C12(Check):
 
     # -- known findings / replay -----------------------------------------------------------------------------
     def known(self, ctx, finding):
-        if finding['id'] == KNOWN_INDENT:
+        if finding['id'] == KNOWN_INDENT and finding.get('status') == 'known':
             w = finding['witness']['data']
             a = run_worker({'mode': 'history', 'ops': [{'op': 'setIndent', 'v': 1}, {'op': 'sertext', 'text': w['second']}]})
             b = run_worker({'mode': 'history', 'ops': [{'op': 'setIndent', 'v': 1}, {'op': 'sertext', 'text': w['first']},
